@@ -5,7 +5,8 @@ tasklets and the primary ULT as owners; sequences of ABT_key_set/get,
 ABT_self_set/get_specific on the own map and ABT_thread_set/get_specific from the primary
 ULT or another unit on a named owner (also while the owner runs, also racing with the
 owner's first set, which creates the table); NULL values and overwrites; then join / free
-/ automatic free / ABT_finalize.
+/ automatic free / ABT_finalize; named owners are also joined and revived (the map
+survives a revive).
 Oracle (executor, exec/ops_key.h): every stored value is a record naming (owner, key,
 sequence number); a get must return the record of a set that is not superseded under the
 interval order of the calls (exact for sequential use; either value for racing sets), and
@@ -83,6 +84,15 @@ def cases(draw, ctx):
                 main_ops.append("create %d" % h)
     tail = own_ops(draw(st.integers(0, 8)), True) + tail
     tail = list(draw(st.permutations(tail))) if len(tail) < 12 else tail
+    # a named owner that is joined and revived keeps its map: the values of its previous
+    # life are still there (and their destructors still run exactly once at the end)
+    for t in remote_targets:
+        for _ in range(draw(st.sampled_from([0, 0, 1, 1, 2]))):
+            tail += ["join %d" % t]
+            tail += ["tget %d %d" % (t, draw(keyst)) for _ in range(draw(st.integers(0, 2)))]
+            tail += ["revive %d %d" % (t, draw(st.integers(0, npools - 1)))]
+            if draw(st.booleans()):
+                tail += ["tset %d %d" % (t, draw(keyst))]
     lines += units
     lines.append("main : " + "; ".join(main_ops + tail))
     lines.append("note tsize=%d nkey=%d" % (tsize, nkey))
@@ -99,7 +109,7 @@ def judge(text, res, ctx):
 
 def classify(text, res, ctx):
     out = []
-    for k in ("key_remote_sets", "key_dtor_calls"):
+    for k in ("key_remote_sets", "key_dtor_calls", "revives"):
         if stat(res, k):
             out.append(k)
     import re
